@@ -22,8 +22,10 @@ import (
 )
 
 // C07 — fee floor and exact gas charging. Ops (shared with lean/HaqqModel/Driver/C07.lean):
-//   cfloor minGPraw gas fee | efloor minGPraw typ gas gasPrice tip cap base | vfee typ gas gasPrice tip cap base
-//   deploy | gas <limit> <raw> <multRaw> <price> # kind=transfer|set|clear|revert|oog pricing=legacy|dynamic limit=<n>
+//
+//	cfloor minGPraw gas fee | efloor minGPraw typ gas gasPrice tip cap base | vfee typ gas gasPrice tip cap base
+//	deploy | gas <limit> <raw> <multRaw> <price> # kind=transfer|set|clear|revert|oog pricing=legacy|dynamic limit=<n>
+//
 // For `gas` the executor runs a real signed Ethereum tx through DeliverTx; `raw` (EVM gas after refunds) is measured
 // by applying the same message on a cache context with the multiplier set to 0, `price` is the effective price.
 func init() {
@@ -262,7 +264,9 @@ func c07Exec(c Case) (outs []string, fails []Failure, tags []string) {
 					// the message cannot even start (e.g. gas limit below the intrinsic gas): the tx fails as a whole, the
 					// up-front deduction stays with the fee collector, nothing is refunded
 					collector := authtypes.NewModuleAddress(authtypes.FeeCollectorName)
-					bal := func(a sdk.AccAddress) *big.Int { return app.BankKeeper.GetBalance(nw.GetContext(), a, nw.GetDenom()).Amount.BigInt() }
+					bal := func(a sdk.AccAddress) *big.Int {
+						return app.BankKeeper.GetBalance(nw.GetContext(), a, nw.GetDenom()).Amount.BigInt()
+					}
 					s0, c0 := bal(key.AccAddr), bal(collector)
 					res, _, _ := c07Send(sender, args)
 					s1, c1 := bal(key.AccAddr), bal(collector)
@@ -283,7 +287,9 @@ func c07Exec(c Case) (outs []string, fails []Failure, tags []string) {
 				raw := rawRes.GasUsed
 				// ---- the real run ----
 				collector := authtypes.NewModuleAddress(authtypes.FeeCollectorName)
-				bal := func(a sdk.AccAddress) *big.Int { return app.BankKeeper.GetBalance(nw.GetContext(), a, nw.GetDenom()).Amount.BigInt() }
+				bal := func(a sdk.AccAddress) *big.Int {
+					return app.BankKeeper.GetBalance(nw.GetContext(), a, nw.GetDenom()).Amount.BigInt()
+				}
 				s0, c0 := bal(key.AccAddr), bal(collector)
 				res, _, _ := c07Send(sender, args)
 				s1, c1 := bal(key.AccAddr), bal(collector)
